@@ -10,7 +10,7 @@ class C07(Prop):
 
     def rule(self):
         return ("PUT and PARSE ops through the verif_hooks re-exports: kinds {U, I, SM} x carriers {8,16,32,64} x "
-                "widths 1..=carrier x bit offsets 0..=23 (quick: a seeded subset of offsets per width; thorough: all) "
+                "widths 1..=carrier x every bit offset 0..=23 (every alignment, 1-9 byte spans; both tiers) plus offsets deep inside a body; reads reached by consume_bits skips of 1..17 bits from every alignment; every overhang of 1..8 bits and whole bytes past the end "
                 "x values {all for widths <= 12 (quick: <= 6); boundary, one-hot, random above} x backgrounds "
                 "{zeros, ones, random}, plus the overflow path. Oracle: every bit of the buffer against the "
                 "expected wire bits computed from the signed reading of the value, cursor, read-back. "
